@@ -224,7 +224,7 @@ def main(run):
         cfg = gen_cfg(rnd, rnd.choice(["sage", "pfi"]), exact=False)
         if cfg["imputer"] not in ("joint", "product", "default"):
             cfg["imputer"] = rnd.choice(["joint", "product", "default"])
-        if cfg["storage"][0] == "library-default":
+        if cfg["storage"][0] in ("library-default", "tree"):
             cfg["storage"] = ("uniform", 5, False)
         cfg["manual_updates"] = False           # (the storage snapshot is taken right before each step)
         seed = rnd.randrange(2 ** 31)
